@@ -311,6 +311,7 @@ func isAutoObligation(name string) bool {
 type Baseline struct {
 	Note       string                     `json:"note"`
 	Properties map[string][]BaselineEntry `json:"properties"`
+	Symbols    map[string][]Sym           `json:"symbols,omitempty"` // variables of the functions under contract (rename tolerance)
 }
 
 func baselinePath() string { return filepath.Join(verifDir, "baseline", "obligations.json") }
@@ -417,6 +418,7 @@ func cmdBaseline(args []string) int {
 	fs := flag.NewFlagSet("baseline", flag.ExitOnError)
 	to := fs.Int("timeout", 10, "solver timeout (s)")
 	fs.Parse(args)
+	noRenames = true
 	e, err := loadEngine(repoDir)
 	if err != nil {
 		fmt.Fprintln(os.Stderr, err)
@@ -425,6 +427,7 @@ func cmdBaseline(args []string) int {
 	tmp, _ := os.MkdirTemp("", "gobv")
 	defer os.RemoveAll(tmp)
 	old, _ := loadBaseline()
+	old.Symbols = e.allSymbols()
 	props := fs.Args()
 	if len(props) == 0 {
 		props = allProps()
@@ -620,13 +623,29 @@ func writeEvidence(e *Engine, pr *PropRun, prop, tier string, seed, obligations,
 		used = append(used, k)
 	}
 	sort.Strings(used)
-	seen := map[string]bool{}
+	// notes are "function: text": group the functions a note applies to
+	byText := map[string][]string{}
 	for _, n := range pr.Notes {
-		// strip function prefix for dedup of generic notes
-		if !seen[n] {
-			seen[n] = true
-			notes = append(notes, n)
+		fn, text := "", n
+		if i := strings.Index(n, ": "); i > 0 {
+			fn, text = n[:i], n[i+2:]
 		}
+		found := false
+		for _, f := range byText[text] {
+			if f == fn {
+				found = true
+			}
+		}
+		if !found {
+			byText[text] = append(byText[text], fn)
+		}
+	}
+	for text, fns := range byText {
+		sort.Strings(fns)
+		if len(fns) > 6 {
+			fns = append(fns[:6], fmt.Sprintf("+%d more", len(fns)-6))
+		}
+		notes = append(notes, text+"  [in "+strings.Join(fns, ", ")+"]")
 	}
 	sort.Strings(notes)
 	trusted := []string{"z3 4.8.12, z3 5.1.0, cvc5 1.0 (first definite answer)", "golang.org/x/tools v0.29.0 go/ssa (naive form) agrees with the compiler", "gobv VC generator (this engine)"}
@@ -641,11 +660,14 @@ func writeEvidence(e *Engine, pr *PropRun, prop, tier string, seed, obligations,
 		"M1: monitor invariants + lockset obligations => every critical section starts in a state satisfying the invariant (all schedules)",
 		"A-FAIR: liveness/timing clauses are not decided (see DESIGN.md §6)",
 	}, notes...)
-	if len(assumptions) > 60 {
-		assumptions = append(assumptions[:60], fmt.Sprintf("… %d more abstraction notes", len(assumptions)-60))
+	if len(assumptions) > 120 {
+		assumptions = append(assumptions[:120], fmt.Sprintf("… %d more abstraction notes", len(assumptions)-120))
 	}
 	for _, er := range pr.Errors {
 		assumptions = append(assumptions, "ENGINE-LIMIT: "+er)
+	}
+	for _, rn := range e.renameNotes {
+		assumptions = append(assumptions, "RENAME: "+rn)
 	}
 	cov := map[string]interface{}{
 		"obligations":                        obligations,
